@@ -421,6 +421,23 @@ func main() {
 				}
 				laws++
 			}
+			// a shallow copy whose only difference is that one slice field is a prefix of the original's (the same
+			// backing array, fewer elements), or a pointer field to an equal value elsewhere
+			for i := 0; i < typ.NumField(); i++ {
+				f := a.Elem().Field(i)
+				if f.Kind() != reflect.Slice || f.Len() < 2 {
+					continue
+				}
+				e := reflect.New(typ)
+				e.Elem().Set(a.Elem())
+				e.Elem().Field(i).Set(f.Slice(0, f.Len()-1))
+				if model.Equal(a.Interface(), e.Interface()) != reflect.DeepEqual(a.Interface(), e.Interface()) ||
+					model.Equal(e.Interface(), a.Interface()) != reflect.DeepEqual(a.Interface(), e.Interface()) {
+					fail("%s: Equal = %v but DeepEqual = %v when slice field %s of one model is a prefix of the other's (same array): %+v and %+v", t,
+						model.Equal(a.Interface(), e.Interface()), reflect.DeepEqual(a.Interface(), e.Interface()), typ.Field(i).Name, a.Interface(), e.Interface())
+				}
+				laws++
+			}
 			for i := 0; i < typ.NumField(); i++ {
 				e := reflect.New(typ)
 				refCopy(e.Elem(), a.Elem())
